@@ -46,6 +46,10 @@ use std::{
 /// Logging target for the file.
 const LOG_TARGET: &str = "litep2p::transport-service";
 
+#[cfg(litep2p_verif)]
+#[path = "../verif/c08.rs"]
+pub(crate) mod verif_c08;
+
 /// Connection context for the peer.
 ///
 /// Each peer is allowed to have at most two connections open. The first open connection is the
